@@ -136,6 +136,11 @@ def run(ctx):
     for i, seed in enumerate(find_seeds(ctx, binary, "any", 6 if quick else 40, (ctx.seed % 1000) * 1000 + 700)):
         scen.append({"id": "coalesce%d" % i, "kind": "session", "seed": seed, "seedkind": "any", "biased": bool(i % 2), "smode": 0, "cmode": i % 2, "coalesce": True,
                      "writes": [{"side": "c", "n": n} for n in (1, 100, 1427, 1428)] + [{"side": "s", "n": 50}]})
+    # the segment that completes the handshake ends inside the inline seed frame and the client speaks first (with its own
+    # table); once the rest of the frame has arrived EVERY burst follows the bridge's table - nothing sampled before survives
+    for i, seed in enumerate(find_seeds(ctx, binary, "any", 6 if quick else 40, (ctx.seed % 1000) * 1000 + 850)):
+        scen.append({"id": "lateseed%d" % i, "kind": "session", "seed": seed, "seedkind": "any", "biased": bool(i % 2), "smode": 0, "cmode": i % 3, "lateseed": True,
+                     "writes": [{"side": "c", "n": n} for n in (1, 100, 1427, 1428, 50, 700, 2855, 9, 1448, 300) * 2] + [{"side": "s", "n": 50}]})
     for i in range(6 if quick else 40):
         scen.append({"id": "seedinject%d" % i, "kind": "seedinject", "seed": find_seeds(ctx, binary, "any", 1, 777 + i * 13 + ctx.seed)[0], "biased": bool(i % 2),
                      "smode": i % 3, "cmode": 0, "writes": [{"side": "s", "n": n} for n in (1, 1427, 1428, 100, 2855)]})
